@@ -94,6 +94,7 @@ def main(tier: str) -> int:
         v.note(f"Determinism.tla: {states} states (every chunking of every batch of both runs); the leaking variant is refuted")
         # real runs
         seeds = [seed * 10 + 1] if tier == "quick" else [seed * 10 + k for k in range(1, 6)]
+        seeds.append(0)        # the seed 0 is a seed like any other (reproducibility only: two variants)
         jobs = []
         for sd in seeds:
             for kind, model, nlive, kw in (("standard", "dyadic2", 50, dict(TINY, maximum_uninformed=50, poolsize=100)),
@@ -101,6 +102,8 @@ def main(tier: str) -> int:
                 base = {"kind": kind, "model": model, "seed": sd, "nlive": nlive, "kwargs": kw, "parallel": {}, "repeat": 1}
                 jobs.append(("base", kind, sd, base))
                 for name, par, rep in variants(tier):
+                    if sd == 0 and name not in ("fresh process again", "twice in one process", "n_pool=2"):
+                        continue
                     if kind == "ins" and tier == "quick" and name not in ("fresh process again", "twice in one process",
                                                                             "n_pool=2", "chunksize=7",
                                                                             "n_pool=2 parallelise_prior",
